@@ -7,6 +7,7 @@ import (
 	"os"
 	"sort"
 	"strings"
+	"sync"
 	"time"
 
 	"github.com/anishathalye/porcupine"
@@ -14,6 +15,7 @@ import (
 	"github.com/coredhcp/coredhcp/plugins/allocators/bitmap"
 
 	"verifmc/ev"
+	"verifmc/reg"
 	"verifmc/sched"
 	"verifmc/verifsched"
 )
@@ -300,7 +302,35 @@ func init() {
 		if !r.Quick() {
 			bound = 3
 		}
+		_ = bound
+		// one worker process per scenario (an exploration owns the process-wide scheduler)
+		var wg sync.WaitGroup
+		sem := make(chan struct{}, 16)
 		for _, sc := range scenarios(!r.Quick()) {
+			sc := sc
+			wg.Add(1)
+			sem <- struct{}{}
+			go func() {
+				defer wg.Done()
+				defer func() { <-sem }()
+				res := reg.Spawn(r, "C04", schedBudget(!r.Quick())+5*time.Minute, "sched", sc.name)
+				if res.Died || res.Hung {
+					panic("E2 worker for " + sc.name + " failed (checker error, not a verdict): " + res.Output)
+				}
+			}()
+		}
+		wg.Wait()
+	}
+}
+
+// runOneSched explores one allocator scenario (worker side).
+func runOneSched(r *ev.Run, name string) {
+	bound := 2
+	if !r.Quick() {
+		bound = 3
+	}
+	for _, sc := range scenarios(true) {
+		if sc.name == name {
 			res := sched.Explore(sc.scenario(), bound, schedBudget(!r.Quick()))
 			ReportSched(r, "C04", res, map[string]interface{}{"pool": sc.pool.String(), "threads": fmt.Sprint(sc.threads), "pre": sc.pre})
 		}
